@@ -3,6 +3,7 @@ let () =
   let suite = Sys.argv.(1) in
   let run = match suite with
     | "C18" -> C18.run
+    | "STORE" -> Store.run
     | s -> failwith ("unknown suite " ^ s) in
   try
     while true do
